@@ -279,15 +279,26 @@ C04Solve(e) ==
       nK == Cardinality(KS)
       meanP == SumFrom(LAMBDA c : IF c \in KS THEN e.p[c] ELSE 0, 1, Len(e.p)) \div Max(nK, 1)
       meanA == SumFrom(LAMBDA c : IF c \in KS THEN e.pa[c] ELSE 0, 1, Len(e.p)) \div Max(nK, 1)
-      cov == SumFrom(LAMBDA c : IF c \in KS THEN Mul(e.p[c] - meanP, e.pa[c] - meanA) ELSE 0, 1, Len(e.p))
-      vP  == SumFrom(LAMBDA c : IF c \in KS THEN Mul(e.p[c] - meanP, e.p[c] - meanP) ELSE 0, 1, Len(e.p))
-      vA  == SumFrom(LAMBDA c : IF c \in KS THEN Mul(e.pa[c] - meanA, e.pa[c] - meanA) ELSE 0, 1, Len(e.p))
+      \* both series are normalised to a largest deviation of 0.5 before the products (the correlation does not depend on the
+      \* scale of either; un-normalised sums of squares of pressures near 50 do not fit 32 bits), sums divided by ~n/8
+      devP(c) == IF c \in KS THEN e.p[c] - meanP ELSE 0
+      devA(c) == IF c \in KS THEN e.pa[c] - meanA ELSE 0
+      mxP == MaxFrom(LAMBDA c : Abs(devP(c)), 1, Len(e.p))
+      mxA == MaxFrom(LAMBDA c : Abs(devA(c)), 1, Len(e.p))
+      nP(c) == IF mxP = 0 THEN 0 ELSE FDiv(devP(c), mxP) \div 2
+      nA(c) == IF mxA = 0 THEN 0 ELSE FDiv(devA(c), mxA) \div 2
+      KK == (nK \div 8) + 1
+      cov == SumFrom(LAMBDA c : Mul(nP(c), nA(c)), 1, Len(e.p)) \div KK
+      vP  == SumFrom(LAMBDA c : Mul(nP(c), nP(c)), 1, Len(e.p)) \div KK
+      vA  == SumFrom(LAMBDA c : Mul(nA(c), nA(c)), 1, Len(e.p)) \div KK
+      \* the analytic pressures must vary: sum of squared deviations > 1e-3 (trivially so when some deviation exceeds 0.5)
+      variesA == mxA > 500000 \/ SumFrom(LAMBDA c : Mul(devA(c), devA(c)), 1, Len(e.p)) > 1000
       contaminated == fm = None \/ KF_FarFromOrigin(env, bo.fit) \/ \E k \in DOMAIN fm.rows : \E i \in InternalEndingAt(m, fr, fm.rows[k].v) :
                          LET q == PhysOf(env, fr.ifaces[i]) IN q # 0 /\
                             (\/ KF_TwoPointIfc(env, q) \/ KF_SignForcedEnd(env, q, fm.rows[k].v)
                              \/ KF_LineFitPerpEnd(env, q, fm.rows[k].v, Entry(fm.rows[k], ColOf(fm, i))))
       corrPremise == /\ env.equilibrium /\ e.pa_consistent /\ env.k >= 3 /\ nK >= 5 /\ ~contaminated /\ connected
-                     /\ vA > 1000 /\ \E q \in DOMAIN env.E : ~env.E[q].straight
+                     /\ variesA /\ \E q \in DOMAIN env.E : ~env.E[q].straight
       corrOK == cov > 0 /\ Mul(cov, cov) >= Mul(810000, Mul(vP, vA))
   IN [fails |-> SetIf(~e.finite, "C04.finite")
                 \cup SetIf(e.finite /\ ok /\ connected /\ neBad # {}, "C04.normal_equations")
